@@ -889,6 +889,38 @@ def hex_digit(t, which):
     return True, item, None
 
 
+def encoder_totality(chk, cx, rule):
+    """A4 on the encoder: payload, the checksum routine, to_bytes and to_bytes_with_newline have no reachable panic for any
+    frame whose data has at most 255 bytes (the Data invariant, C01.O1), apart from the encoder's own assert_eq! on
+    Vec::capacity (the stated assumption with_capacity(n).capacity() == n)."""
+    from a4 import PanicInventory, Interval
+
+    def data_len_bound(x):
+        # len(cow_slice(<frame>.data.0)) <= 255: the Data typestate
+        if x[0] == "app" and x[1] in ("cow_slice", "cow_owned") and x[2][0][0] == "proj" and x[2][0][2][0] == "field" and x[2][0][1][0] == "proj":
+            fty = x[2][0][1][2][2] if len(x[2][0][1][2]) > 2 else ""
+            if isinstance(fty, str) and fty.startswith("flipdot_core::frame::Data"):
+                return 255
+        return None
+    old = Interval.LEN_BOUND
+    Interval.LEN_BOUND = staticmethod(data_len_bound)
+    try:
+        inv = PanicInventory(cx.prog, cx.models, log_on=True)
+        for fn in (cx.payload, cx.find_checksum(), cx.to_bytes, cx.to_bytes_nl):
+            inv.run_entry(fn)
+    finally:
+        Interval.LEN_BOUND = old
+    n = 0
+    for key, o in sorted(inv.obs.items()):
+        if "capacity" in o.desc or any("capacity" in f for f in o.failed):
+            continue        # the encoder's own assert_eq! on Vec::capacity: covered by the stated assumption
+        n += 1
+        ok = o.discharged is not None and not o.failed
+        chk.ob(rule, "%s in %s: %s%s" % (o.kind, o.fn.split("::")[-1], o.desc[:110], " — " + o.discharged if ok else ""), ok, key="enc:panic-site:%s" % o.key, where=o.where,
+               detail=None if ok else o.failed[0])
+    chk.floor(rule, "panic-capable sites in the encoder", n, 4)
+
+
 def data_typestate(chk, cx, rule):
     prog = cx.prog
     a = prog.adts[DATA]
@@ -959,6 +991,7 @@ def run_c01(chk, prog):
     payload_rules(chk, cx, "C01.O2")
     checksum_rules(chk, cx, "C01.O3")
     to_bytes_rules(chk, cx, "C01.O4")
+    encoder_totality(chk, cx, "C01.O4.total")
     regex_rules(chk, cx, "C01.O5.regex")
     decoder_rules(chk, cx, {"total": "C01.O5", "order": "C01.O5", "must": "C01.O5", "payload": "C01.O5.payload", "bind": "C01.O5"})
     chk.assumptions += ["lemma L1 (DESIGN.md section 6): with O1-O5, decode(encode(f)) = f with or without CRLF, for owned or borrowed data (Cow equality is by content)",
